@@ -812,6 +812,8 @@ def check(case):
             check_pattern(res, case)
         elif kind == "history":
             check_history(res, case)
+        elif kind == "converr":
+            check_conversion_error(res, case)
         else:
             check_modules(res, case)
     finally:
@@ -820,7 +822,140 @@ def check(case):
     return res
 
 
+class OutOfStock(Exception):
+    pass
+
+
+CONVERR_EXC = {"ValueError": ValueError, "KeyError": KeyError, "ZeroDivisionError": ZeroDivisionError,
+               "AssertionError": AssertionError, "Custom": OutOfStock, "TypeError": TypeError}
+CONVERR_LIMIT = 50
+
+
+def check_conversion_error(res, case):
+    """A definition whose pattern matches the complete text stays THE definition of that step when its type converter
+    refuses the value (any exception class): the step is bound to it -- as an error to be reported when the step runs --
+    and neither falls through to a later / generic definition nor becomes undefined, and nothing escapes the lookup.
+    Definitions made later (whose text the refusing definition matches) can still be registered."""
+    from behave.matchers import MatchWithError, use_step_matcher, register_type
+    from behave.model import Step
+    from behave.step_registry import StepRegistry, AmbiguousStep
+    exc_class = CONVERR_EXC[case["exc"]]
+
+    @_parse.with_pattern(r"\d+")
+    def conv_limited(text):
+        if int(text) > CONVERR_LIMIT:
+            raise exc_class("only %d in stock" % CONVERR_LIMIT)
+        return int(text)
+    registry = StepRegistry()
+    use_step_matcher(case["matcher"])
+    register_type(Lim=conv_limited)
+    f_lim, f_any, f_lit = step_function(0), step_function(1), step_function(2)
+    lim_type, any_type = case["types"]
+    order = [("lim", lim_type, u"take {n:Lim} items", f_lim), ("any", any_type, u"take {anything} items", f_any)]
+    if case["any_first"]:
+        order.reverse()
+    registered = []
+    for name, stype, pattern, fn in order:
+        try:
+            registry.add_step_definition(stype, pattern, fn)
+            registered.append((name, stype, fn))
+        except AmbiguousStep:
+            res.label("converr:second-definition-ambiguous")
+    if case.get("literal_later") and ("lim", lim_type, f_lim) in registered:
+        # a definition without parameters whose text the limited definition matches but refuses to convert: not
+        # ambiguous (documented: conversion errors are ignored in that comparison), and nothing else may escape
+        text_lit = u"take %d items now" % case["value"] if case["literal_later"] == "longer" else \
+            u"take %d items" % case["value"]
+        try:
+            registry.add_step_definition(lim_type, text_lit, f_lit)
+            if text_lit == u"take %d items" % case["value"]:
+                registered.append(("lit", lim_type, f_lit))
+        except AmbiguousStep:
+            if case["value"] > CONVERR_LIMIT or text_lit.endswith(u"now"):
+                if not any(n == "any" and t == lim_type for n, t, _f in registered):
+                    res.fail("C11.converr.registration", "registering @%s(%r) after the limited definition is refused as "
+                             "ambiguous although no registered definition accepts that text" % (lim_type, text_lit))
+        except Exception as e:     # noqa
+            res.fail("C11.converr.registration-escape", "registering @%s(%r): %s: %s escaped from the comparison with "
+                     "the registered definitions" % (lim_type, text_lit, e.__class__.__name__, e))
+            return
+    res.nontrivial = True
+    res.evals = 0
+    res.label("converr", "converr:" + case["exc"], "converr:" + case["matcher"])
+    for look_type in LOOK_TYPES:
+        for value in (case["value"], 7):
+            text = u"take %d items" % value
+            # own account: candidates in lookup order (type-specific in registration order, then generic)
+            cands = [(n, fn) for n, t, fn in registered if t == look_type] + \
+                    [(n, fn) for n, t, fn in registered if t == "step"]
+            res.evals += 1
+            step = Step(u"c11.feature", 1, look_type.title(), look_type, text)
+            try:
+                match = registry.find_match(step)
+            except Exception as e:     # noqa
+                res.fail("C11.converr.lookup-escape", "looking up %s %r: %s: %s escaped from find_match()"
+                         % (look_type.title(), text, e.__class__.__name__, e))
+                return
+            what = "%s %r (definitions in lookup order: %s)" % (look_type.title(), text, [n for n, _f in cands])
+            if not cands:
+                if match is not None:
+                    res.fail("C11.converr.bound", "%s is bound to %r" % (what, match.func))
+                continue
+            first_name, first_fn = cands[0]
+            refused = first_name == "lim" and value > CONVERR_LIMIT
+            if refused:
+                res.label("converr:first-candidate-refuses")
+                if len(cands) > 1:
+                    res.label("converr:first-candidate-refuses:another-would-match")
+            if match is None:
+                res.fail("C11.converr.undefined", "%s: no definition found%s" % (
+                    what, " (the first one matches the text but its converter refuses the value)" if refused else ""))
+                continue
+            if match.func is not first_fn:
+                res.fail("C11.converr.fell-through", "%s is bound to definition %s%s" % (
+                    what, [n for n, fn in cands if fn is match.func] or match.func,
+                    " although the first one matches the complete text (its converter refuses the value)" if refused else ""))
+                continue
+            if refused != isinstance(match, MatchWithError):
+                res.fail("C11.converr.kind", "%s: %s" % (what, "conversion refused but an ordinary match is reported"
+                                                         if refused else "a conversion error is reported: %r" % match))
+                continue
+            if refused:
+                try:
+                    match.run(the_context())
+                    res.fail("C11.converr.run", "%s: running the match raised nothing" % what)
+                except Exception as e:     # noqa
+                    cause = getattr(e, "__cause__", None) or getattr(e, "exc_cause", None) or e
+                    if not (isinstance(e, exc_class) or isinstance(cause, exc_class) or exc_class.__name__ in repr(e)
+                            or "in stock" in u"%s" % (e,)):
+                        res.fail("C11.converr.run", "%s: running the match raised %r, which does not carry the "
+                                 "converter's error" % (what, e))
+            else:
+                del CALLS[:]
+                match.run(the_context())
+                want_fid = first_fn.c11_id
+                if not CALLS or CALLS[-1][0] != want_fid:
+                    res.fail("C11.converr.dispatch", "%s: called %r, expected function %d" % (what, CALLS[-1:], want_fid))
+                elif first_name == "lim" and CALLS[-1][2].get("n") != value:
+                    res.fail("C11.converr.argument", "%s: called with %r" % (what, CALLS[-1][1:]))
+
+
+def converr_cases():
+    import itertools
+    for exc, matcher, any_first, value in itertools.product(sorted(CONVERR_EXC), PARSE_KINDS, (False, True), (51, 77, 50, 3)):
+        for types in (("given", "given"), ("given", "step"), ("step", "given"), ("when", "then"), ("step", "step"),
+                      ("then", "step")):
+            for lit in (None, "same", "longer"):
+                yield {"kind": "converr", "exc": exc, "matcher": matcher, "any_first": any_first, "value": value,
+                       "types": list(types), "literal_later": lit}
+
+
 def invalid_case(case):
+    if case.get("kind") == "converr":
+        ok = (case.get("exc") in CONVERR_EXC and case.get("matcher") in PARSE_KINDS and isinstance(case.get("value"), int)
+              and 0 <= case["value"] < 10 ** 6 and len(case.get("types") or []) == 2
+              and all(t in STYPES for t in case["types"]) and case.get("literal_later") in (None, "same", "longer"))
+        return None if ok else "malformed conversion-error case"
     try:
         kind = case.get("kind") if isinstance(case, dict) else None
         if kind == "pattern":
@@ -1433,6 +1568,7 @@ class C11Machine(RuleBasedStateMachine):
 def explore(rec):
     k = 1 if rec.tier == "quick" else 20
     rec.enum("re-register", reregister_cases())
+    rec.enum("converter refuses a value its pattern matched", converr_cases())
     rec.hyp("patterns", pattern_case_st(), 6000 * k)
     rec.machine("histories", C11Machine, 1000 * k, steps=30)
     rec.hyp("step-modules", modules_case_st(), 400 * k)
@@ -1448,10 +1584,12 @@ def required_labels(tier):
                "look:earlier-over-later", "look:generic-hit", "look:earlier-match-still-held", "reg:type-converter-replaced",
                "reg:added", "reg:ignored", "reg:ambiguous", "hist:nontrivial",
                "modules:default-after-switch", "modules:env-default", "modules:legacy-step_matcher-alias", "modules:sibling-import",
-               "modules:cwd-1", "modules:cwd-2", "modules:cwd-3"])
+               "modules:cwd-1", "modules:cwd-2", "modules:cwd-3", "converr:first-candidate-refuses:another-would-match",
+               "converr:KeyError", "converr:ValueError", "converr:Custom"])
 
 
 KNOWN_PREDICATES = {}
 
 
 RULE = RULE + " " + ('Step modules may import an earlier sibling module (its definitions are re-registrations of the very same function and pattern) and are loaded from foreign working directories; earlier lookup results are kept and must not change when later lookups (also of the same definition) are made.')
+RULE = RULE + " " + ('A complete table of conversion refusals: a custom type whose converter raises (six exception classes) for a value its pattern matched, next to a catch-all definition in every order / step-type placement, with and without a later literal definition of the refused text: the step stays bound to the first matching definition (as a reported error), never falls through or becomes undefined, nothing escapes lookup or registration.')
